@@ -281,7 +281,7 @@ def run_check(driver, ctx, t0):
         # concrete failing input before reporting.
         widened = True
         try:
-            wctx = Ctx(prop, tier, seed, widen=10, scratch=ctx.scratch)
+            wctx = Ctx(prop, tier, seed, widen=int(os.environ.get("VERIF_MAX_WIDEN", "10")), scratch=ctx.scratch)
             o2 = driver.run(wctx)
             outcome.merge(o2)
             new, seen2 = split(outcome.failures)
